@@ -17,7 +17,7 @@ from ufoverif.runner import VERIF, Discard, Violation
 
 ID = "C08"
 RULE = (
-    "case = (source: rich UFO | mark-class-heavy UFO | kerning-heavy multi-script UFO | 2-4 master designspace; all with a full explicit glyph order) "
+    "case = (source: rich UFO | mark-class-heavy UFO | kerning-heavy multi-script UFO | 2-4 master designspace | 2-master designspace with sparse class kerning and GPOS compaction; all with a full explicit glyph order) "
     "x history of 1-3 compile calls with generated options (incl. lib/explicit feature writers with groupMarkClasses, contextual anchors); oracle = sha256 of "
     "the saved bytes of every returned font must be equal across (1) three worker processes with PYTHONHASHSEED 1/12345/987654 and the in-process seed 0, "
     "(2) ufoLib2 vs defcon built in memory and saved-with-one/reopened-with-the-other, (3) inplace=True on a private copy vs inplace=False, (4) every "
@@ -85,14 +85,20 @@ def build_source(source, module_name, mode="mem"):
     return fonts, ds
 
 
-def call(fonts, ds, op, inplace=False):
+def call(fonts, ds, op, inplace=False, kw=None):
     import ufo2ft
 
     fn = op["fn"]
-    kw = c07.make_options(op["opts"])
+    if kw is None:
+        kw = c07.make_options(op["opts"])
     if inplace:
         kw["inplace"] = True
-    arg = ds if ds is not None else (fonts if "Interpolatable" in fn else fonts[0])
+    if ds is not None and fn in ("compileTTF", "compileOTF"):
+        # a static compile of the default master of a family (the "static then variable" histories)
+        d = ds.findDefault()
+        arg = d.font if d is not None else fonts[0]
+    else:
+        arg = ds if ds is not None else (fonts if "Interpolatable" in fn else fonts[0])
     res = getattr(ufo2ft, fn)(arg, **kw)
     return [digest(t) for t in outputs(fn, res)]
 
@@ -169,15 +175,20 @@ def _contextual(draw, spec):
 
 @st.composite
 def _case(draw):
-    kind = draw(st.sampled_from(["rich", "rich", "mark", "markchain", "kern", "family", "family"]))
+    kind = draw(st.sampled_from(["rich", "rich", "mark", "markchain", "kern", "family", "family", "compact"]))
     module = draw(st.sampled_from(["ufoLib2", "defcon"]))
+    compact = kind == "compact"
+    if compact:
+        kind = "family"
     if kind == "family":
-        fam = draw(F.family(base_strategy=F.rich_font(with_layers=False), max_masters=3))
+        fam = draw(F.family(base_strategy=F.sparse_kern_font(), max_masters=2, allow_sparse=False, allow_two_axes=False) if compact else F.family(base_strategy=F.rich_font(with_layers=False), max_masters=3))
         fam["base"] = _full_order(fam["base"])
         source = {"kind": "family", "fam": fam}
         names = [g["name"] for g in fam["base"]["glyphs"] if g["name"] != ".notdef"]
-        funcs = c07.DS_FUNCS
+        funcs = c07.DS_FUNCS + ["compileTTF", "compileOTF"]
         src = fam["base"]
+        if F.chance(draw, 1, 3):
+            fam.setdefault("lib", {})["public.fontInfo"] = draw(c07.VF_INFO)
     else:
         if kind == "rich":
             spec = draw(F.rich_font())
@@ -219,13 +230,29 @@ def _case(draw):
         funcs = ["compileTTF", "compileOTF", "compileTTF", "compileOTF", "compileInterpolatableTTFs"]
         src = spec
     ops = []
-    for _ in range(draw(st.integers(1, 3))):
-        fn = draw(st.sampled_from(funcs))
+    plan = [draw(st.sampled_from(funcs)) for _ in range(draw(st.integers(1, 3)))]
+    if kind == "family" and F.chance(draw, 1, 2):
+        # "static then variable" and the reverse, on the same source objects
+        plan = list(draw(st.permutations([draw(st.sampled_from(["compileVariableTTF", "compileVariableCFF2"])), draw(st.sampled_from(["compileTTF", "compileOTF"]))])))
+        if F.chance(draw, 1, 3):
+            plan.append(draw(st.sampled_from(plan)))
+    if compact:
+        compact_key = draw(st.sampled_from(["@option", "@option", ""]))
+        plan = [draw(st.sampled_from(["compileVariableTTF", "compileVariableCFF2"]))] * 2 + draw(st.sampled_from([[], ["compileTTF"]]))
+    for fn in plan:
         o = draw(c07._opts(fn, names, bool(src.get("layers")), src))
         o.pop("debugFeatureFile", None)
         if kind in ("mark", "kern", "markchain"):
             o.pop("featureWriters", None)
+        if F.chance(draw, 1, 4):
+            o["ftConfig"] = {"fontTools.otlLib.optimize.gpos:COMPRESSION_LEVEL" + draw(st.sampled_from(["", "@option"])): draw(st.sampled_from([0, 5, 9]))}
+        if compact:
+            # one options dict kept around by the caller and used for every build (GPOS compaction on)
+            o = {"ftConfig": {"fontTools.otlLib.optimize.gpos:COMPRESSION_LEVEL" + compact_key: 9}}
         ops.append({"fn": fn, "opts": o})
+    if len(ops) >= 2 and F.chance(draw, 1, 3):
+        # "compile twice": the very same call (and, in the history run, the very same option objects) repeated
+        ops[draw(st.integers(1, len(ops) - 1))] = json.loads(json.dumps(ops[0]))
     config = draw(st.sampled_from(["other-lib", "disk-same", "disk-other-writer", "disk-other-reader", "inplace", "inplace", "inplace-twice"]))
     if src.pop("_contextual", False):
         config = draw(st.sampled_from(["inplace", "inplace", "disk-same", "other-lib"]))
@@ -308,9 +335,14 @@ def run_case(case, ctx):
         ctx.count("configuration-comparisons")
     # (4) history on the same objects
     fonts, ds = build_source(source, module)
+    shared = {}  # equal options in a history are passed as the very same objects (lists, dicts, writer and filter instances), as a caller reusing its arguments would
     for i, op in enumerate(case["ops"]):
+        key = json.dumps(op["opts"], sort_keys=True)
+        if key in shared:
+            ctx.label("history-reuses-option-objects")
         try:
-            got = call(fonts, ds, op)
+            kw = shared.setdefault(key, c07.make_options(op["opts"]))
+            got = call(fonts, ds, op, kw=dict(kw))
         except Exception as e:
             got = "exc:" + type(e).__name__
         if got != ref[i]:
@@ -322,6 +354,14 @@ def run_case(case, ctx):
         ctx.label("history>=2")
     if any(isinstance(r, str) for r in ref):
         ctx.label("some-call-raised")
+    if source["kind"] == "family" and any(op["fn"] in ("compileTTF", "compileOTF") for op in case["ops"]) and any(op["fn"].startswith("compileVariable") for op in case["ops"]):
+        ctx.label("static-and-variable-in-one-history")
+    if source["kind"] == "family" and "public.fontInfo" in source["fam"].get("lib", {}):
+        ctx.label("designspace-fontinfo-override")
+    if any("ftConfig" in op["opts"] for op in case["ops"]):
+        ctx.label("ftConfig")
+    if len(src.get("groups", {})) >= 16 and any(v for op in case["ops"] for v in op["opts"].get("ftConfig", {}).values()):
+        ctx.label("gpos-compaction-on-sparse-class-kerning")
     nmark = len({a["name"] for g in src["glyphs"] for a in g.get("anchors", []) if a["name"].startswith("_")})
     ngroups = len([k for k in src.get("groups", {}) if k.startswith("public.kern1.")])
     if nmark >= 2:
